@@ -1510,6 +1510,7 @@ impl<'t, 'c> Gen<'t, 'c> {
         let tres = sv("TR$", self.add_var("TR$".into(), STy::B(Ty::Str), vec![], true), Ty::Str);
         let cnt = sv("CNT%", self.add_var("CNT%".into(), STy::B(Ty::Int), vec![], true), Ty::Int);
         let sentinel = sv("SENT%", self.add_var("SENT%".into(), STy::B(Ty::Int), vec![], true), Ty::Int);
+        let tries = sv("TRY%", self.add_var("TRY%".into(), STy::B(Ty::Int), vec![], true), Ty::Int);
         let arr = self.add_var("ARR%".into(), STy::B(Ty::Int), vec![(0, 2)], true);
         let mut cv = ControlVars { z, big, idx, n, small, sres, tres, arr, cnt, cf: None };
         let mut main: Vec<Stmt> = vec![];
@@ -1599,8 +1600,9 @@ impl<'t, 'c> Gen<'t, 'c> {
         let mut target_placed: Vec<bool> = vec![false; nh];
         let mut handler_resume: Vec<usize> = vec![];
         for _ in 0..nh {
-            // 0 = RESUME NEXT (simplest), 1 = RESUME, 2 = RESUME label
-            handler_resume.push(self.t.choose(3));
+            // 0 = RESUME NEXT (simplest), 1 = RESUME, 2 = RESUME label, 3 = RESUME twice (after the repairs), then RESUME NEXT:
+            // a statement that cannot be repaired (a stray RETURN or RESUME) is re-executed - and nothing before it - twice
+            handler_resume.push(self.t.choose(4));
         }
         // a landing label of RESUME <label> sits in the main line or, now and then, inside a GOSUB routine (the RETURN
         // that follows it needs the GOSUB that was pending when the error happened)
@@ -1720,7 +1722,12 @@ impl<'t, 'c> Gen<'t, 'c> {
                 _ => {
                     // forward GOTO over a token; rarely a stray RETURN / RESUME
                     match self.t.choose(9) {
-                        0 => main.push(Stmt::Return),
+                        0 | 2 => {
+                            // (a counter before it shows whether anything in front of the failing statement is executed again)
+                            main.push(Stmt::Assign(cv.cnt.clone(), b(BinOp::Add, ld(&cv.cnt), lit_i(1))));
+                            main.push(Stmt::Return);
+                            main.push(pr(vec![s_lit("y"), ld(&cv.cnt)]));
+                        }
                         1 => main.push(Stmt::Resume(ResumeKind::Next)),
                         // RESUME <label> reached while no error is being handled: error 20 like the other forms
                         8 => main.push(Stmt::ResumeLabel(resume_targets[self.t.choose(nh)].clone())),
@@ -1786,6 +1793,13 @@ impl<'t, 'c> Gen<'t, 'c> {
                 1 => {
                     main.extend(self.repairs(&cv));
                     main.push(Stmt::Resume(ResumeKind::Same));
+                }
+                3 => {
+                    main.extend(self.repairs(&cv));
+                    main.push(Stmt::Assign(tries.clone(), b(BinOp::Add, ld(&tries), lit_i(1))));
+                    main.push(Stmt::IfLine { cond: b(BinOp::Lt, ld(&tries), lit_i(3)), then_: vec![Stmt::Resume(ResumeKind::Same)], else_: None });
+                    main.push(Stmt::Assign(tries.clone(), lit_i(0)));
+                    main.push(Stmt::Resume(ResumeKind::Next));
                 }
                 _ => main.push(Stmt::ResumeLabel(resume_targets[k].clone())),
             }
